@@ -1,6 +1,7 @@
-(** Lemmas about the multi-client model (Model/MultiClient.v): invariant of the
-    reachable states, append-only version lists per lineage, refusal of stale
-    commits, exactness of the known class [c14_recreated_lineage]. *)
+(** Lemmas about the multi-client model (Model/MultiClient.v): what holds in every reachable
+    state ([mc_wf]: numbering, accepted commits keep the history), the lineage-aware invariant
+    of the runs in which commit metadata never repeats ([mc_inv]: append-only version lists per
+    lineage, re-created lineages refused, no silent merge), refusal of stale commits. *)
 From Rocfl Require Import Base.Bytes Model.VersionNum Model.MultiClient
   Proofs.BytesFacts Proofs.VersionNumFacts.
 From Coq Require Import ZArith Lia ZifyBool ZifyN ZifyNat.
